@@ -179,6 +179,13 @@ enum Ev {
     Fut { id: u64, res: Res, how: u64 },
     /// bounded event channel only: the user receives one event
     Recv,
+    // composed mode (routing table and store computed by the model): user-level events
+    /// uc: 0 find_node, 1 put_record, 2 start_providing, 3 get_record, 4 get_providers, 5 refresh;
+    /// rk: label of the record key (put / get) or of the refreshed start_providing operation
+    UCmd { q: u64, uc: u64, qtag: u64, qn: u64, rk: u64 },
+    UPutToPeers { q: u64, qtag: u64, qn: u64, rk: u64, given: Vec<u64> },
+    UStore(u64),
+    UAddKnown(u64, bool),
 }
 
 fn push_list(out: &mut Vec<u64>, l: &[u64]) {
@@ -232,6 +239,16 @@ impl Ev {
             }
             Ev::Nop => o.push(2),
             Ev::Recv => o.push(13),
+            Ev::UCmd { q, uc, qtag, qn, rk } => {
+                o.extend([14, *q, *uc, *qtag, *qn, *rk]);
+                o.extend(target_key(*q, *uc, *rk).iter().map(|b| *b as u64));
+            }
+            Ev::UPutToPeers { q, qtag, qn, rk, given } => {
+                o.extend([15, *q, *qtag, *qn, *rk]);
+                push_list(&mut o, given);
+            }
+            Ev::UStore(rk) => o.extend([16, *rk]),
+            Ev::UAddKnown(p, a) => o.extend([17, *p, *a as u64]),
             Ev::Established(p, a) => o.extend([4, *p, *a as u64]),
             Ev::Closed(p) => o.extend([5, *p]),
             Ev::Kill(p) => o.extend([6, *p]),
@@ -296,6 +313,10 @@ struct Header {
     known: Vec<u64>,
     /// capacity of the event channel towards the handle; 0 = the shipped one (never full here)
     cap: u64,
+    /// 1 = composed mode: the case carries the peers' Kademlia keys, commands are user-level events
+    mode: u64,
+    /// number of peer labels 0..pool the case may use (their keys are listed in composed mode)
+    pool: u64,
 }
 
 fn encode_case(h: &Header, events: &[Vec<u64>]) -> Vec<u64> {
@@ -305,6 +326,16 @@ fn encode_case(h: &Header, events: &[Vec<u64>]) -> Vec<u64> {
     }
     push_list(&mut c, &h.known);
     c.push(h.cap);
+    c.push(h.mode);
+    if h.mode == 1 {
+        let labels: Vec<u64> = (0..h.pool).chain([LOCAL]).collect();
+        c.push(labels.len() as u64);
+        for l in labels {
+            c.push(l);
+            let p = if l == LOCAL { mk_peer(500) } else { mk_peer(l) };
+            c.extend(Key::from(p).verif_raw().iter().map(|b| *b as u64));
+        }
+    }
     c.push(events.len() as u64);
     for e in events {
         c.extend(e);
@@ -332,6 +363,18 @@ fn decode_case(c: &[u64]) -> Option<(Header, Vec<Ev>)> {
     let mgr = r.pairs()?;
     let known = r.list()?;
     let cap = r.n()?;
+    let mode = r.n()?;
+    let mut pool = MAX_POOL;
+    if mode == 1 {
+        let nk = r.n()? as usize;
+        if nk == 0 || nk > 201 {
+            return None;
+        }
+        pool = nk as u64 - 1;
+        for _ in 0..nk * 33 {
+            r.n()?;
+        }
+    }
     let n = r.n()? as usize;
     let mut evs = Vec::new();
     for _ in 0..n {
@@ -348,6 +391,16 @@ fn decode_case(c: &[u64]) -> Option<(Header, Vec<Ev>)> {
             1 => Ev::PutToPeers { q: r.n()?, qtag: r.n()?, qn: r.n()?, peers: r.list()? },
             2 => Ev::Nop,
             13 => Ev::Recv,
+            14 => {
+                let e = Ev::UCmd { q: r.n()?, uc: r.n()?, qtag: r.n()?, qn: r.n()?, rk: r.n()? };
+                for _ in 0..32 {
+                    r.n()?;
+                }
+                e
+            }
+            15 => Ev::UPutToPeers { q: r.n()?, qtag: r.n()?, qn: r.n()?, rk: r.n()?, given: r.list()? },
+            16 => Ev::UStore(r.n()?),
+            17 => Ev::UAddKnown(r.n()?, r.n()? != 0),
             3 => {
                 r.n()?;
                 continue;
@@ -381,10 +434,19 @@ fn decode_case(c: &[u64]) -> Option<(Header, Vec<Ev>)> {
     if r.1 != c.len() {
         return None;
     }
-    Some((Header { k, mgr, known, cap }, evs))
+    Some((Header { k, mgr, known, cap, mode, pool }, evs))
 }
 
 // ------------------------------------------------------------------ the system under test
+
+/// 256-bit Kademlia key of the target of a composed-mode command.
+fn target_key(q: u64, uc: u64, rk: u64) -> [u8; 32] {
+    match uc {
+        0 => Key::from(mk_peer(1_000 + q)).verif_raw(),
+        1 | 3 | 5 => Key::new(Sys::key_of(rk)).verif_raw(),
+        _ => Key::new(Sys::key_of(q)).verif_raw(),
+    }
+}
 
 fn mk_peer(i: u64) -> PeerId {
     let mut b = vec![0x00u8, 0x24, 0x08, 0x01, 0x12, 0x20];
@@ -446,6 +508,7 @@ struct Sys {
     /// substream id -> real query id of the action it was opened for
     fut_query: HashMap<u64, usize>,
     /// seconds the paused clock has been advanced
+    mode: u64,
     now_s: u64,
     /// start_providing operations: (label, refresh deadline, qtag, qn)
     provided: Vec<(u64, u64, u64, u64)>,
@@ -462,7 +525,7 @@ impl Sys {
         if h.k == 0 || h.k > 64 {
             return None;
         }
-        let peers: Vec<PeerId> = (0..MAX_POOL).map(mk_peer).collect();
+        let peers: Vec<PeerId> = (0..h.pool).map(mk_peer).collect();
         let mut index: HashMap<PeerId, u64> = peers.iter().enumerate().map(|(i, p)| (*p, i as u64)).collect();
         let local = mk_peer(500);
         index.insert(local, LOCAL);
@@ -506,6 +569,7 @@ impl Sys {
             inflight: BTreeMap::new(),
             sub_peer: HashMap::new(),
             fut_query: HashMap::new(),
+            mode: h.mode,
             now_s: 0,
             provided: Vec::new(),
             cap: h.cap,
@@ -516,16 +580,20 @@ impl Sys {
         };
         // routing table, then the manager's beliefs (add_known_peer goes through the manager too)
         for p in &h.known {
-            if *p >= MAX_POOL {
+            if *p >= h.pool {
                 return None;
             }
             let peer = s.peers[*p as usize];
             s.handle.try_add_known_peer(peer, vec![s.peer_addr(*p)]).ok()?;
         }
         s.poll();
-        s.probe.take();
+        for en in s.probe.take() {
+            if let VerifProbeEntry::AtSelect(d) = en {
+                s.dump = d;
+            }
+        }
         for (p, v) in &h.mgr {
-            if *p >= MAX_POOL || *v > 3 {
+            if *p >= h.pool || *v > 3 {
                 return None;
             }
             s.manager.verif_force_peer(s.peers[*p as usize], *v as usize, s.peer_addr(*p));
@@ -538,7 +606,7 @@ impl Sys {
     }
 
     fn peer(&self, p: u64) -> PeerId {
-        if p < MAX_POOL {
+        if (p as usize) < self.peers.len() {
             self.peers[p as usize]
         } else if p == LOCAL {
             mk_peer(500)
@@ -757,6 +825,69 @@ impl Sys {
                     real_q = Some(r.0);
                 }
             }
+            Ev::UCmd { q, uc, qtag, qn, rk } => {
+                let quorum = Self::quorum(*qtag, *qn);
+                let r = match uc {
+                    0 => self.handle.try_find_node(mk_peer(1_000 + q)).ok(),
+                    1 => self
+                        .handle
+                        .try_put_record(
+                            Record { key: Self::key_of(*rk), value: vec![LOCAL_REC], publisher: None, expires: None },
+                            quorum,
+                        )
+                        .ok(),
+                    2 => {
+                        self.provided.push((*q, self.now_s + REFRESH_SECS, *qtag, *qn));
+                        self.handle.start_providing(Self::key_of(*q), quorum).now_or_never()
+                    }
+                    3 => self.handle.try_get_record(Self::key_of(*rk), quorum).ok(),
+                    4 => self.handle.get_providers(Self::key_of(*q)).now_or_never(),
+                    _ => {
+                        let now = self.now_s;
+                        if let Some(entry) = self.provided.iter_mut().find(|x| x.0 == *rk) {
+                            let wait = entry.1.saturating_sub(now) + 1;
+                            entry.1 = now + wait + REFRESH_SECS;
+                            tokio::time::advance(Duration::from_secs(wait)).await;
+                            self.now_s += wait;
+                            refresh_label = Some(*q);
+                        } else {
+                            expect = false;
+                        }
+                        None
+                    }
+                };
+                if let Some(r) = r {
+                    self.qmap.insert(r.0, *q);
+                    real_q = Some(r.0);
+                }
+            }
+            Ev::UPutToPeers { q, qtag, qn, rk, given } => {
+                let r = self
+                    .handle
+                    .try_put_record_to_peers(
+                        Record { key: Self::key_of(*rk), value: vec![LOCAL_REC], publisher: None, expires: None },
+                        given.iter().map(|p| self.peer(*p)).collect(),
+                        false,
+                        Self::quorum(*qtag, *qn),
+                    )
+                    .ok();
+                if let Some(r) = r {
+                    self.qmap.insert(r.0, *q);
+                    real_q = Some(r.0);
+                }
+            }
+            Ev::UStore(rk) => {
+                let _ = self.handle.try_store_record(Record {
+                    key: Self::key_of(*rk),
+                    value: vec![LOCAL_REC],
+                    publisher: None,
+                    expires: None,
+                });
+            }
+            Ev::UAddKnown(p, addr) => {
+                let addrs = if *addr { vec![self.peer_addr(*p % 200)] } else { vec![] };
+                let _ = self.handle.try_add_known_peer(self.peer(*p), addrs);
+            }
             Ev::Nop => {
                 let _ = self.handle.try_store_record(Record {
                     key: RecordKey::from(vec![251u8, 1]),
@@ -792,7 +923,7 @@ impl Sys {
             }
             Ev::Mgr(p, v) => {
                 expect = false;
-                if *p < MAX_POOL && *v <= 3 {
+                if (*p as usize) < self.peers.len() && *v <= 3 {
                     self.manager.verif_force_peer(self.peer(*p), *v as usize, self.peer_addr(*p));
                 }
             }
@@ -1020,6 +1151,9 @@ impl Sys {
                 trace.extend(o);
             }
             self.enc_dump(trace);
+            if self.mode == 1 {
+                self.enc_rt_store(trace);
+            }
         } else {
             // bounded channel: what the user received; the snapshot only when the loop waits in select!
             trace.push(1);
@@ -1164,6 +1298,30 @@ impl Sys {
         }
     }
 
+    /// composed mode: the routing table (non-empty buckets) and the keys of the local store
+    fn enc_rt_store(&self, out: &mut Vec<u64>) {
+        let d = &self.dump;
+        out.push(d.routing_table.len() as u64);
+        for (index, nodes) in &d.routing_table {
+            out.push(*index as u64);
+            out.push(nodes.len() as u64);
+            for (p, addr, conn) in nodes {
+                out.extend([self.idx(p), *addr as u64, *conn as u64]);
+            }
+        }
+        let mut keys: Vec<u64> = d
+            .store_keys
+            .iter()
+            .map(|k| match k.as_slice() {
+                [a, b, 7, 7] => *a as u64 + 256 * *b as u64,
+                [250, 1, 2] => 250,
+                _ => 999,
+            })
+            .collect();
+        keys.sort();
+        push_list(out, &keys);
+    }
+
     fn live_futs(&self) -> Vec<(u64, FKind)> {
         self.inflight
             .iter()
@@ -1206,7 +1364,7 @@ fn run_stored(c: &[u64]) -> Option<(Vec<u64>, Vec<u64>)> {
     // in a task that never yields, i.e. delay events of long histories
     rt.block_on(tokio::task::unconstrained(async {
         let mut s = Sys::new(&h)?;
-        let mut trace = vec![if h.cap == 0 { 1u64 } else { 2u64 }];
+        let mut trace = vec![if h.mode == 1 { 3u64 } else if h.cap == 0 { 1u64 } else { 2u64 }];
         let mut events = Vec::new();
         for e in &evs {
             events.extend(s.apply(e, &mut trace).await);
@@ -1356,7 +1514,7 @@ impl Gen {
 
 /// One adaptive run: a small network with faults, a few user operations, then (usually) the
 /// environment discharges everything it still owes.
-fn generate(seed: u64, tier_long: bool, cap: u64) -> Option<(Vec<u64>, Vec<u64>)> {
+fn generate(seed: u64, tier_long: bool, cap: u64, compose: bool) -> Option<(Vec<u64>, Vec<u64>)> {
     let mut rng = Rng::new(seed);
     let n = rng.range(2, 7);
     let k = rng.pick(&[1u64, 2, 3, 20, 20, 20]);
@@ -1368,14 +1526,14 @@ fn generate(seed: u64, tier_long: bool, cap: u64) -> Option<(Vec<u64>, Vec<u64>)
             known.push(p);
         }
     }
-    let h = Header { k, mgr, known, cap };
+    let h = Header { k, mgr, known, cap, mode: compose as u64, pool: MAX_POOL };
     let mut g = Gen { rng, n, k, next_q: 0, next_inbound: INBOUND_BASE, answered: Vec::new(), dial_answered: Vec::new() };
     let rt = runtime();
     // unconstrained: tokio's cooperative budget would make channel polls return Pending spuriously
     // in a task that never yields, i.e. delay events of long histories
     rt.block_on(tokio::task::unconstrained(async {
         let mut s = Sys::new(&h)?;
-        let mut trace = vec![if h.cap == 0 { 1u64 } else { 2u64 }];
+        let mut trace = vec![if h.mode == 1 { 3u64 } else if h.cap == 0 { 1u64 } else { 2u64 }];
         let mut events: Vec<Vec<u64>> = Vec::new();
         let happy = g.rng.pick(&[30u64, 60, 60, 85, 100]);
         let max_cmds = g.rng.range(1, if tier_long { 5 } else { 3 });
@@ -1389,6 +1547,7 @@ fn generate(seed: u64, tier_long: bool, cap: u64) -> Option<(Vec<u64>, Vec<u64>)
         }
         let mut cmds = 0;
         let mut refreshes = 0;
+        let mut rks: Vec<u64> = Vec::new();
         for _ in 0..steps {
             let dials = s.owed_dials();
             let subs: Vec<(u64, u64)> = s.owed_subs().into_iter().filter(|(sid, _)| !g.answered.contains(sid)).collect();
@@ -1432,7 +1591,20 @@ fn generate(seed: u64, tier_long: bool, cap: u64) -> Option<(Vec<u64>, Vec<u64>)
                     g.next_q += 1;
                     let qtag = g.rng.below(3);
                     let qn = g.rng.range(1, 4);
-                    if g.rng.chance(25) {
+                    if compose {
+                        // a record key used before gives get_record a local hit
+                        let rk = if !rks.is_empty() && g.rng.chance(60) { g.rng.pick(&rks) } else { q };
+                        if g.rng.chance(20) {
+                            let given = g.peers_list(4, true);
+                            Ev::UPutToPeers { q, qtag, qn, rk: q, given }
+                        } else {
+                            let uc = g.rng.below(5);
+                            if uc == 1 {
+                                rks.push(q);
+                            }
+                            Ev::UCmd { q, uc, qtag, qn, rk: if uc == 1 { q } else { rk } }
+                        }
+                    } else if g.rng.chance(25) {
                         let peers = g.peers_list(4, true);
                         Ev::PutToPeers { q, qtag, qn, peers }
                     } else {
@@ -1474,7 +1646,11 @@ fn generate(seed: u64, tier_long: bool, cap: u64) -> Option<(Vec<u64>, Vec<u64>)
                     let (label, _, qtag, qn) = s.provided[0];
                     let q = g.next_q;
                     g.next_q += 1;
-                    Ev::Cmd { q, ctag: 5, qtag, qn, local: label + 1, dists: vec![], seeds: vec![] }
+                    if compose {
+                        Ev::UCmd { q, uc: 5, qtag, qn, rk: label }
+                    } else {
+                        Ev::Cmd { q, ctag: 5, qtag, qn, local: label + 1, dists: vec![], seeds: vec![] }
+                    }
                 }
                 3 => {
                     let (id, kind) = g.rng.pick(&futs);
@@ -1518,6 +1694,18 @@ fn generate(seed: u64, tier_long: bool, cap: u64) -> Option<(Vec<u64>, Vec<u64>)
                         _ => Ev::Nop,
                     }
                 }
+            };
+            let ev = match ev {
+                Ev::Nop if compose => {
+                    if g.rng.chance(50) {
+                        let rk = 200 + g.rng.below(3);
+                        rks.push(rk);
+                        Ev::UStore(rk)
+                    } else {
+                        Ev::UAddKnown(g.rng.below(MAX_POOL), g.rng.chance(80))
+                    }
+                }
+                e => e,
             };
             events.extend(s.apply(&ev, &mut trace).await);
         }
@@ -1585,13 +1773,13 @@ fn witnesses() -> Vec<(&'static str, Header, Vec<Ev>)> {
         (
             // F-C16a: put_record_to_peers to a peer that cannot be dialed (no usable address)
             "f_c16a_put_to_peers_undialable",
-            Header { k: 20, mgr: vec![(0, 0)], known: vec![0], cap: 0 },
+            Header { k: 20, mgr: vec![(0, 0)], known: vec![0], cap: 0, mode: 0, pool: MAX_POOL },
             vec![Ev::PutToPeers { q: 0, qtag: 1, qn: 1, peers: vec![0] }],
         ),
         (
             // F-C16a, second shape: lookup succeeds, then the only found node cannot be reached again
             "f_c16a_put_record_target_lost",
-            Header { k: 20, mgr: vec![(0, 1)], known: vec![0], cap: 0 },
+            Header { k: 20, mgr: vec![(0, 1)], known: vec![0], cap: 0, mode: 0, pool: MAX_POOL },
             vec![
                 cmd(0, 1, 0),
                 Ev::Established(0, true),
@@ -1605,13 +1793,13 @@ fn witnesses() -> Vec<(&'static str, Header, Vec<Ev>)> {
             // F-C16b: the connection comes up but its task is already gone when the queued
             // PUT_VALUE wants its substream
             "f_c16b_established_open_fails",
-            Header { k: 20, mgr: vec![(0, 1)], known: vec![0], cap: 0 },
+            Header { k: 20, mgr: vec![(0, 1)], known: vec![0], cap: 0, mode: 0, pool: MAX_POOL },
             vec![Ev::PutToPeers { q: 0, qtag: 1, qn: 1, peers: vec![0] }, Ev::Established(0, false)],
         ),
         (
             // F-C16c: the peer answers FIND_NODE with bytes that do not decode
             "f_c16c_undecodable_response",
-            Header { k: 20, mgr: vec![(0, 2)], known: vec![0], cap: 0 },
+            Header { k: 20, mgr: vec![(0, 2)], known: vec![0], cap: 0, mode: 0, pool: MAX_POOL },
             vec![
                 Ev::Established(0, true),
                 cmd(0, 0, 0),
@@ -1622,7 +1810,7 @@ fn witnesses() -> Vec<(&'static str, Header, Vec<Ev>)> {
         (
             // F-C16c, second shape: ADD_PROVIDER sent back as the "response"
             "f_c16c_add_provider_as_response",
-            Header { k: 20, mgr: vec![(0, 2)], known: vec![0], cap: 0 },
+            Header { k: 20, mgr: vec![(0, 2)], known: vec![0], cap: 0, mode: 0, pool: MAX_POOL },
             vec![
                 Ev::Established(0, true),
                 cmd(0, 4, 0),
@@ -1634,13 +1822,13 @@ fn witnesses() -> Vec<(&'static str, Header, Vec<Ev>)> {
             // F-C16d: dial, connection established, the substream opened for the queued action
             // fails to negotiate (peer does not speak the protocol)
             "f_c16d_open_failure_after_dial",
-            Header { k: 20, mgr: vec![(0, 1)], known: vec![0], cap: 0 },
+            Header { k: 20, mgr: vec![(0, 1)], known: vec![0], cap: 0, mode: 0, pool: MAX_POOL },
             vec![cmd(0, 0, 0), Ev::Established(0, true), Ev::OpenFail(0)],
         ),
         (
             // the connection closes while the request is outstanding: the future fails, the query ends
             "closed_while_request_outstanding",
-            Header { k: 20, mgr: vec![(0, 2)], known: vec![0], cap: 0 },
+            Header { k: 20, mgr: vec![(0, 2)], known: vec![0], cap: 0, mode: 0, pool: MAX_POOL },
             vec![
                 Ev::Established(0, true),
                 cmd(0, 0, 0),
@@ -1653,7 +1841,7 @@ fn witnesses() -> Vec<(&'static str, Header, Vec<Ev>)> {
             // the store republishes a local provider: an ADD_PROVIDER operation nobody asked for, with an
             // id from the shared counter, ends with exactly one terminal event
             "provider_refresh",
-            Header { k: 20, mgr: vec![(0, 2)], known: vec![0], cap: 0 },
+            Header { k: 20, mgr: vec![(0, 2)], known: vec![0], cap: 0, mode: 0, pool: MAX_POOL },
             vec![
                 Ev::Established(0, true),
                 cmd(0, 2, 1),
@@ -1672,7 +1860,7 @@ fn witnesses() -> Vec<(&'static str, Header, Vec<Ev>)> {
             // an event channel of one slot: get_record with a local record reports two events, the
             // loop parks on the second until the user receives
             "bounded_channel_parks",
-            Header { k: 20, mgr: vec![(0, 2)], known: vec![0], cap: 1 },
+            Header { k: 20, mgr: vec![(0, 2)], known: vec![0], cap: 1, mode: 0, pool: MAX_POOL },
             vec![
                 Ev::Cmd { q: 0, ctag: 3, qtag: 1, qn: 1, local: 1, dists: vec![], seeds: vec![] },
                 Ev::Recv,
@@ -1683,7 +1871,7 @@ fn witnesses() -> Vec<(&'static str, Header, Vec<Ev>)> {
         (
             // a silent peer: the 15 s executor timeout ends the wait
             "silent_peer_times_out",
-            Header { k: 20, mgr: vec![(0, 2)], known: vec![0], cap: 0 },
+            Header { k: 20, mgr: vec![(0, 2)], known: vec![0], cap: 0, mode: 0, pool: MAX_POOL },
             vec![
                 Ev::Established(0, true),
                 cmd(0, 3, 1),
@@ -1691,7 +1879,40 @@ fn witnesses() -> Vec<(&'static str, Header, Vec<Ev>)> {
                 Ev::Fut { id: 0, res: Res::ReadFail, how: 1 },
             ],
         ),
+        full_bucket_witness(),
     ]
+}
+
+/// F-C16e: put_record_to_peers([X]) where X is not in the routing table and its bucket is full of
+/// disconnected peers. `routing_table.entry(X)` is then `Vacant(slot of the first replaceable
+/// node Y)`, whose address store is Y's: the record went to Y, a peer the user never named.
+fn full_bucket_witness() -> (&'static str, Header, Vec<Ev>) {
+    const POOL: u64 = 80;
+    let local = Key::from(mk_peer(500)).verif_raw();
+    let bucket = |l: u64| -> usize {
+        let k = Key::from(mk_peer(l)).verif_raw();
+        for i in 0..32 {
+            let x = local[i] ^ k[i];
+            if x != 0 {
+                return 255 - (i * 8 + x.leading_zeros() as usize);
+            }
+        }
+        0
+    };
+    let members: Vec<u64> = (0..POOL).filter(|l| bucket(*l) == 255).collect();
+    assert!(members.len() >= 21, "not enough peers in the furthest bucket");
+    let known: Vec<u64> = members[..20].to_vec();
+    let x = members[20];
+    let y = members[0];
+    (
+        "f_c16e_put_to_peers_full_bucket",
+        Header { k: 20, mgr: vec![(y, 1), (x, 1)], known, cap: 0, mode: 1, pool: POOL },
+        vec![
+            Ev::UPutToPeers { q: 0, qtag: 1, qn: 1, rk: 5, given: vec![x] },
+            Ev::Established(y, true),
+            Ev::Established(x, true),
+        ],
+    )
 }
 
 
@@ -1791,7 +2012,7 @@ pub fn main(args: &Args) {
         Ok(failed) if failed.is_empty() => eprintln!("c16: end-to-end stream ok (3 operations over loopback TCP)"),
         other => {
             eprintln!("c16: end-to-end stream FAILED: {:?}", other.ok());
-            let h = Header { k: 20, mgr: vec![(0, 0)], known: vec![0], cap: 0 };
+            let h = Header { k: 20, mgr: vec![(0, 0)], known: vec![0], cap: 0, mode: 0, pool: MAX_POOL };
             let e = Ev::PutToPeers { q: 0, qtag: 1, qn: 1, peers: vec![0] };
             out.emit(&encode_case(&h, &[e.encode()]), &[1, 1, 0, 0, 0, 0, 0, 0]);
         }
@@ -1802,6 +2023,8 @@ pub fn main(args: &Args) {
     for i in 0..n {
         // every fifth history runs on an event channel of 1-3 slots
         let cap = if i % 5 == 4 { 1 + (i / 5) % 3 } else { 0 };
-        run_one(|| generate(seed.wrapping_mul(1_000_003).wrapping_add(i), long, cap), &[0], &mut out);
+        // two of five run against the composed model (routing table and store computed)
+        let compose = i % 5 == 1 || i % 5 == 3;
+        run_one(|| generate(seed.wrapping_mul(1_000_003).wrapping_add(i), long, cap, compose), &[0], &mut out);
     }
 }
